@@ -25,6 +25,7 @@
 -/
 import SomeipModel.Lemmas.OTLift
 import SomeipModel.Props.C10Count
+import SomeipModel.Props.C09Time
 namespace Someip
 open Stack
 set_option linter.unusedSimpArgs false
@@ -122,6 +123,43 @@ theorem c10_cyclic_offer_at_period (s0 s : Stack) (es : List Event) (h0 : FreshT
   obtain ⟨A, hA, hS⟩ := hrest (by rw [hpc]; decide)
   rw [hpc] at hS
   exact ⟨A, hA, hS⟩
+
+/-- **NEVER LATE, as a state invariant**: at every reachable state the next step of the task an instance holds is due at a
+time B on schedule that the clock has not passed - the time since the instance's last multicast offer (or its start) never
+exceeds the delay of the task's position.  (The clock cannot pass a pending wake-up, a fired wake-up or a queued step
+stops the clock until it has run.) -/
+theorem c10_next_offer_not_overdue (s0 s : Stack) (es : List Event) (h0 : FreshTime s0) (hrun : runAll s0 es = some s)
+    (i n : Nat) (x : Instance) (hx : s.getInst i = some x) (hn : x.task = some n)
+    (t : TaskSt) (ht : s.getTask (.offer i, n) = some t) (hpc : t.pc ≠ .done) :
+    ∃ A B, anchor i s.offLog = some A ∧ Sch s.tm t.pc A B ∧ s.loop.now ≤ B := by
+  obtain ⟨t', ht', hrest⟩ := c10_held_task_on_schedule s0 s es h0 hrun i n x hx hn
+  rw [ht] at ht'; cases ht'
+  obtain ⟨A, B, hA, hS, hP⟩ := hrest hpc
+  refine ⟨A, B, hA, hS, ?_⟩
+  have hld := c09_clock_never_passes_a_deadline s0 s es h0.timers hrun
+  unfold Pend at hP
+  cases hw : t.waiting
+  · rw [hw] at hP; simp only [Bool.false_eq_true, if_false] at hP
+    exact Nat.le_of_eq hP.2.2.2
+  · rw [hw] at hP; simp only [if_true] at hP
+    obtain ⟨_, h2, h3, h4⟩ := hP
+    by_cases hq : nWR s i n = 0
+    · have hlen : (wT s i n).length = 1 := by omega
+      match hwt : wT s i n, hlen with
+      | [y], _ =>
+        have hy : y ∈ wT s i n := by rw [hwt]; exact List.mem_cons_self
+        have hyt : y ∈ s.loop.timers := (List.mem_filter.mp hy).1
+        rw [← h3 y hy]; exact hld y hyt
+    · exact Nat.le_of_eq (h4 hq)
+
+/-- in the cyclic phase: the last multicast offer of an offering instance is never older than one cyclic period -/
+theorem c10_last_offer_is_fresh (s0 s : Stack) (es : List Event) (h0 : FreshTime s0) (hrun : runAll s0 es = some s)
+    (i n : Nat) (x : Instance) (hx : s.getInst i = some x) (hn : x.task = some n)
+    (t : TaskSt) (ht : s.getTask (.offer i, n) = some t) (hpc : t.pc = .cyclic) :
+    ∃ A, anchor i s.offLog = some A ∧ s.loop.now ≤ A + s.tm.cyclicOfferDelay := by
+  obtain ⟨A, B, hA, hS, hB⟩ := c10_next_offer_not_overdue s0 s es h0 hrun i n x hx hn t ht (by rw [hpc]; decide)
+  rw [hpc] at hS
+  exact ⟨A, hA, by rw [← (show B = A + s.tm.cyclicOfferDelay from hS)]; exact hB⟩
 
 /-- while the task sleeps, every scheduled wake-up handle of it carries exactly the due time -/
 theorem c10_wakeup_deadline_on_schedule (s0 s : Stack) (es : List Event) (h0 : FreshTime s0) (hrun : runAll s0 es = some s)
